@@ -2,6 +2,7 @@
   C03 obligations about the regenerated attribute-definition tables.
 -/
 import DV.Model.TableWF
+import DV.Properties.C03
 import DV.Generated.Dict
 import DV.Generated.Classes
 import DV.Generated.Commands
@@ -18,5 +19,34 @@ theorem C03_tables_wellformed :
 /-- No dictionary name, normalised the way `UndefinedMessage` exposes it,
     collides with an existing member of the untyped message classes. -/
 theorem C03_undefined_names : Gen.undefNameClashes = [] := by decide
+
+/-- For every class of the working tree: each declared attribute denotes exactly
+    one dictionary AVP — a Grouped one exactly when the attribute has a container
+    class — and the decoder maps that AVP back to this attribute and no other. -/
+theorem C03_tables_one_to_one (c : ClassDef) (hc : c ∈ Gen.classes) (d : AttrDef) (hd : d ∈ c.defs) :
+    neededDef c.defs d.code d.vendor = some d ∧
+    ∃ e, lookupDict Gen.dict d.code d.vendor = some e ∧ (d.tclass.isSome = true ↔ e.ty = tagGrouped) := by
+  have hall := C03_tables_wellformed
+  simp only [allClassesWF, Bool.and_eq_true, List.all_eq_true] at hall
+  have hwf := hall.2 c hc
+  simp only [classWF, Bool.and_eq_true, List.all_eq_true] at hwf
+  refine ⟨C03_decode_finds_definition c.defs hwf.1.1.2 d hd, ?_⟩
+  have hdef := hwf.1.1.1 d hd
+  unfold attrDefWF at hdef
+  cases hl : lookupDict Gen.dict d.code d.vendor with
+  | none => simp [hl] at hdef
+  | some e =>
+    refine ⟨e, rfl, ?_⟩
+    simp only [hl] at hdef
+    cases ht : d.tclass with
+    | none =>
+      simp only [ht] at hdef
+      have : e.ty ≠ tagGrouped := by
+        intro h; rw [h] at hdef; simp at hdef
+      simp [this]
+    | some t =>
+      simp only [ht, Bool.and_eq_true] at hdef
+      have : e.ty = tagGrouped := by simpa using hdef.1
+      simp [this]
 
 end DV
